@@ -1190,6 +1190,8 @@ class Interp:
         if isinstance(v, ObjV):
             return self.obj_attr(v, attr, node)
         if isinstance(v, PyObjV):
+            if attr == "__dict__":
+                return v.fields  # the attribute dictionary itself (updates through it are updates of the object)
             if attr in v.fields:
                 return v.fields[attr]
             fi = v.module.resolve_method(v.cls, attr)
@@ -2351,7 +2353,9 @@ class Interp:
                 self.assign_target(tt, vv, env)
         elif isinstance(t, ast.Attribute):
             o = self.eval(t.value, env)
-            if isinstance(o, PyObjV):
+            if isinstance(o, PyObjV) and t.attr == "__dict__" and isinstance(v, dict):
+                o.fields = v
+            elif isinstance(o, PyObjV):
                 o.fields[t.attr] = v
             elif isinstance(o, ObjV):
                 self.write_field(o, t.attr, v, t)
